@@ -354,6 +354,12 @@ class Orchestrator:  # thailint: ignore[srp]
         """Safely check a rule, returning empty list on error."""
         try:
             return rule.check(context)
+        except UnicodeError:
+            # Data problems (e.g. a file name that is not valid UTF-8) are not configuration
+            # errors although UnicodeError derives from ValueError; fail this rule only.
+            _verif_fail("check", rule.rule_id, context.file_path, sys.exc_info()[1])
+            logger.exception("Rule %s failed on %s", rule.rule_id, context.file_path)
+            return []
         except ValueError:
             # Re-raise configuration validation errors (these are user-facing)
             raise
